@@ -957,3 +957,307 @@ fn enc_m24_bytes() {
     while i < 56 { if i < got.n { chk!(got.b[i] == want.b[i], "C08: bytes equal the documented format") } i += 1 }
     kani::cover!(v.f22.is_none() && v.f24.is_some());
 }
+
+// =====================================================================================================================
+// Second batch: schema features not exercised above
+// =====================================================================================================================
+
+/// like `dec_harness!` with an explicit unwinding bound (long arrays)
+macro_rules! dec_harness_u {
+    ($name:ident, $unw:expr, $skip:ident, $wt:ty => $rt:ty, $cap:expr, $reff:path, $fr:expr, $h:expr, |$hh:ident| $mk:expr, |$v:ident| $expect:expr) => {
+        #[cfg(kani)]
+        #[kani::proof]
+        #[kani::stub(minicbor::decode::Decoder::skip, $skip)]
+        #[kani::unwind($unw)]
+        fn $name() {
+            let $hh: Hints = $h;
+            let $v: $wt = $mk;
+            let mut inp = Out::<$cap>::new();
+            $reff(&mut inp, &$v, &$hh, $fr);
+            let mut d = Decoder::new(&inp.b[.. inp.n]);
+            let r: Result<$rt, minicbor::decode::Error> = Decode::decode(&mut d, &mut ());
+            match r {
+                Ok(w) => {
+                    let want: $rt = $expect;
+                    chk!(w == want, "decoded value");
+                    chk!(d.position() == inp.n, "exact consumption");
+                }
+                Err(_) => chk!(false, "decoding the reference encoding succeeds"),
+            }
+            kani::cover!(inp.n >= 1);
+        }
+    }
+}
+
+/// `enc_harness!` through the index-store sink (for encoders with many writes, where `Cursor` is too expensive)
+macro_rules! enc_store_harness {
+    ($name:ident, $t:ty, $cap:expr, $reff:path, |$v:ident| $cover:expr) => {
+        #[cfg(kani)]
+        #[kani::proof]
+        fn $name() {
+            let $v: $t = kani::any();
+            let mut e = Encoder::new(Store::<$cap> { b: kani::any(), n: 0 });
+            let ok = $v.encode(&mut e, &mut ()).is_ok();
+            chk!(ok, "encoding succeeds");
+            let got = e.into_writer();
+            let mut want = Out::<{ $cap + 8 }>::new();
+            $reff(&mut want, &$v, &NOH, PREF);
+            chk!(got.n == want.n, "C08: number of bytes");
+            let mut i = 0;
+            while i < $cap { if i < got.n { chk!(got.b[i] == want.b[i], "C08: bytes equal the documented format") } i += 1 }
+            chk!($v.cbor_len(&mut ()) == got.n, "C07: cbor_len == bytes written");
+            kani::cover!($cover);
+        }
+    }
+}
+
+// ---- 1. tuple structs with non-contiguous indexes and a field after the gap; highest index 23 (array of 24: 2-byte head)
+// ---- 2. lowest index >= 1 (leading gap: position 0 is NULL) in a struct, a tuple struct and enum variants
+// ---- 3. unit variants with a variant-level encoding attribute that differs from the enum-level one
+family! {
+    pub struct T3(#[n(0)] u8, #[n(2)] u8, #[n(3)] u8);
+    pub struct T23(#[n(0)] u8, #[n(23)] u8);
+    pub struct AL { #[n(1)] a: u8, #[n(2)] b: u8 }
+    pub struct AL2(#[n(2)] u8);
+    pub enum EL { #[n(0)] V(#[n(1)] u8), #[n(1)] W { #[n(2)] y: bool } }
+    #[cbor(array)] pub enum EUA { #[n(0)] #[cbor(map)] A, #[n(1)] B, #[n(2)] #[cbor(map)] C { #[n(0)] x: u8 } }
+    #[cbor(map)] pub enum EUM { #[n(0)] #[cbor(array)] A, #[n(1)] B, #[n(2)] #[cbor(array)] C { #[n(0)] x: u8 } }
+}
+
+fn ref_t3<const N: usize>(o: &mut Out<N>, v: &T3, h: &Hints, fr: Fr) {
+    o.structure(false, NOTAG, &[cls(h[0], fu(0, v.0 as u64)), cls(h[1], fu(2, v.1 as u64)), cls(h[2], fu(3, v.2 as u64))], fr)
+}
+fn ref_t23<const N: usize>(o: &mut Out<N>, v: &T23, h: &Hints, fr: Fr) {
+    o.structure(false, NOTAG, &[cls(h[0], fu(0, v.0 as u64)), cls(h[1], fu(23, v.1 as u64))], fr)
+}
+fn ref_al<const N: usize>(o: &mut Out<N>, v: &AL, h: &Hints, fr: Fr) {
+    o.structure(false, NOTAG, &[cls(h[0], fu(1, v.a as u64)), cls(h[1], fu(2, v.b as u64))], fr)
+}
+fn ref_al2<const N: usize>(o: &mut Out<N>, v: &AL2, h: &Hints, fr: Fr) {
+    o.structure(false, NOTAG, &[cls(h[0], fu(2, v.0 as u64))], fr)
+}
+fn ref_el<const N: usize>(o: &mut Out<N>, v: &EL, h: &Hints, fr: Fr) {
+    match v {
+        EL::V(x) => { o.enum_prefix(NOTAG, false, 0, fr); o.structure(false, NOTAG, &[cls(h[0], fu(1, *x as u64))], fr) }
+        EL::W { y } => { o.enum_prefix(NOTAG, false, 1, fr); o.structure(false, NOTAG, &[fb(2, *y)], fr) }
+    }
+}
+fn ref_eua<const N: usize>(o: &mut Out<N>, v: &EUA, h: &Hints, fr: Fr) {
+    match v {
+        EUA::A => { o.enum_prefix(NOTAG, false, 0, fr); o.structure(true, NOTAG, &[], fr) }
+        EUA::B => { o.enum_prefix(NOTAG, false, 1, fr); o.structure(false, NOTAG, &[], fr) }
+        EUA::C { x } => { o.enum_prefix(NOTAG, false, 2, fr); o.structure(true, NOTAG, &[cls(h[0], fu(0, *x as u64))], fr) }
+    }
+}
+fn ref_eum<const N: usize>(o: &mut Out<N>, v: &EUM, h: &Hints, fr: Fr) {
+    match v {
+        EUM::A => { o.enum_prefix(NOTAG, false, 0, fr); o.structure(false, NOTAG, &[], fr) }
+        EUM::B => { o.enum_prefix(NOTAG, false, 1, fr); o.structure(true, NOTAG, &[], fr) }
+        EUM::C { x } => { o.enum_prefix(NOTAG, false, 2, fr); o.structure(false, NOTAG, &[cls(h[0], fu(0, *x as u64))], fr) }
+    }
+}
+
+// @harness name=enc2_t3 props=C08,C07 kind=complete
+enc_harness!(enc2_t3, T3, 16, ref_t3, |v| true, true, v.1 >= 24);
+// @harness name=dec2_t3_111 props=C09 kind=complete
+dec_harness!(dec2_t3_111, T3, ref_t3, PREF, h3(1, 1, 1), |h| T3(u8c(h[0]), u8c(h[1]), u8c(h[2])));
+// @harness name=dec2_t3_w000 props=C09 kind=complete note="values < 24 with heads widened to one argument byte"
+dec_harness!(dec2_t3_w000, T3, ref_t3, WIDE1, h3(0, 0, 0), |h| T3(u8c(h[0]), u8c(h[1]), u8c(h[2])));
+// @harness name=enc2_t23 props=C08,C07 kind=complete note="array(24): the head is 98 18"
+enc_store_harness!(enc2_t23, T23, 32, ref_t23, |v| v.1 >= 24);
+// @harness name=dec2_t23_11 props=C09 kind=complete
+dec_harness_u!(dec2_t23_11, 26, skip0, T23 => T23, 32, ref_t23, PREF, h2(1, 1), |h| T23(u8c(h[0]), u8c(h[1])), |v| v);
+// @harness name=enc2_al props=C08,C07 kind=complete
+enc_harness!(enc2_al, AL, 16, ref_al, |v| true, true, v.a >= 24);
+// @harness name=dec2_al_11 props=C09 kind=complete
+dec_harness!(dec2_al_11, AL, ref_al, PREF, h2(1, 1), |h| AL { a: u8c(h[0]), b: u8c(h[1]) });
+// @harness name=dec2_al_w00 props=C09 kind=complete
+dec_harness!(dec2_al_w00, AL, ref_al, WIDE1, h2(0, 0), |h| AL { a: u8c(h[0]), b: u8c(h[1]) });
+// @harness name=enc2_al2 props=C08,C07 kind=complete
+enc_harness!(enc2_al2, AL2, 16, ref_al2, |v| true, true, v.0 >= 24);
+// @harness name=dec2_al2_1 props=C09 kind=complete
+dec_harness!(dec2_al2_1, AL2, ref_al2, PREF, h1(1), |h| AL2(u8c(h[0])));
+// @harness name=dec2_al2_0 props=C09 kind=complete
+dec_harness!(dec2_al2_0, AL2, ref_al2, PREF, h1(0), |h| AL2(u8c(h[0])));
+// @harness name=enc2_el props=C08,C07 kind=complete
+enc_harness!(enc2_el, EL, 16, ref_el, |v| true, true, matches!(v, EL::W { .. }));
+// @harness name=dec2_el_v1 props=C09 kind=complete
+dec_harness!(dec2_el_v1, EL, ref_el, PREF, h1(1), |h| EL::V(u8c(h[0])));
+// @harness name=dec2_el_w props=C09 kind=complete
+dec_harness!(dec2_el_w, EL, ref_el, PREF, NOH, |h| EL::W { y: kani::any() });
+// @harness name=enc2_eua props=C08,C07 kind=complete note="unit variant body = empty struct encoding in the variant's effective encoding"
+enc_harness!(enc2_eua, EUA, 16, ref_eua, |v| true, true, matches!(v, EUA::A));
+// @harness name=enc2_eum props=C08,C07 kind=complete
+enc_harness!(enc2_eum, EUM, 16, ref_eum, |v| true, true, matches!(v, EUM::A));
+// @harness name=dec2_eua_a props=C09 kind=complete
+dec_harness!(dec2_eua_a, skip1, EUA => EUA, 24, ref_eua, PREF, NOH, |h| EUA::A, |v| v);
+// @harness name=dec2_eua_b props=C09 kind=complete
+dec_harness!(dec2_eua_b, skip1, EUA => EUA, 24, ref_eua, PREF, NOH, |h| EUA::B, |v| v);
+// @harness name=dec2_eua_c1 props=C09 kind=complete
+dec_harness!(dec2_eua_c1, skip1, EUA => EUA, 24, ref_eua, PREF, h1(1), |h| EUA::C { x: u8c(h[0]) }, |v| v);
+// @harness name=dec2_eum_a props=C09 kind=complete
+dec_harness!(dec2_eum_a, skip1, EUM => EUM, 24, ref_eum, PREF, NOH, |h| EUM::A, |v| v);
+// @harness name=dec2_eum_b props=C09 kind=complete
+dec_harness!(dec2_eum_b, skip1, EUM => EUM, 24, ref_eum, PREF, NOH, |h| EUM::B, |v| v);
+// @harness name=dec2_eum_c1 props=C09 kind=complete
+dec_harness!(dec2_eum_c1, skip1, EUM => EUM, 24, ref_eum, PREF, h1(1), |h| EUM::C { x: u8c(h[0]) }, |v| v);
+
+// ---- 4. custom codecs with nil awareness, every attribute order.  `Opt(0)` means "absent": it must be omitted (map),
+// ----    trimmed at the end / written as NULL below the highest present index (array), exactly like `Option::None`.
+#[derive(PartialEq, Clone, Copy)]
+#[cfg_attr(kani, derive(kani::Arbitrary))]
+pub struct Opt(pub u8);
+pub mod optc {
+    use super::Opt;
+    use minicbor::{Encoder, Decoder};
+    pub fn encode<C, W: minicbor::encode::Write>(v: &Opt, e: &mut Encoder<W>, _: &mut C) -> Result<(), minicbor::encode::Error<W::Error>> {
+        if v.0 == 0 { e.null()?; } else { e.u8(v.0)?; }
+        Ok(())
+    }
+    pub fn decode<'b, C>(d: &mut Decoder<'b>, _: &mut C) -> Result<Opt, minicbor::decode::Error> {
+        if d.datatype()? == minicbor::data::Type::Null { d.null()?; Ok(Opt(0)) } else { d.u8().map(Opt) }
+    }
+    pub fn is_nil(v: &Opt) -> bool { v.0 == 0 }
+    pub fn nil() -> Option<Opt> { Some(Opt(0)) }
+    pub fn cbor_len<C>(v: &Opt, _: &mut C) -> usize { if v.0 < 24 { 1 } else { 2 } }
+}
+family! {
+    // array encoding: (0) encode part first, decode_with last, ONE attribute; (1) the same split over TWO attributes;
+    // (2) decode_with first; (3) with = module, has_nil
+    pub struct CA {
+        #[cbor(n(0), encode_with = "optc::encode", is_nil = "optc::is_nil", decode_with = "optc::decode", cbor_len = "optc::cbor_len")] o0: Opt,
+        #[n(1)] #[cbor(encode_with = "optc::encode", is_nil = "optc::is_nil")] #[cbor(decode_with = "optc::decode", cbor_len = "optc::cbor_len")] o1: Opt,
+        #[cbor(n(2), decode_with = "optc::decode", nil = "optc::nil", encode_with = "optc::encode", is_nil = "optc::is_nil", cbor_len = "optc::cbor_len")] o2: Opt,
+        #[cbor(n(3), with = "optc", has_nil)] o3: Opt
+    }
+    // map encoding: (0) as CA.o0; (1) is_nil written BEFORE the codec paths; (2) decode part in the first attribute,
+    // encode part in the second; (3) has_nil before with
+    #[cbor(map)] pub struct CM {
+        #[cbor(n(0), encode_with = "optc::encode", is_nil = "optc::is_nil", decode_with = "optc::decode", cbor_len = "optc::cbor_len")] o0: Opt,
+        #[cbor(n(1), is_nil = "optc::is_nil", decode_with = "optc::decode", encode_with = "optc::encode", cbor_len = "optc::cbor_len")] o1: Opt,
+        #[n(2)] #[cbor(decode_with = "optc::decode", nil = "optc::nil")] #[cbor(encode_with = "optc::encode", is_nil = "optc::is_nil", cbor_len = "optc::cbor_len")] o2: Opt,
+        #[cbor(n(3), has_nil, with = "optc")] o3: Opt
+    }
+}
+fn fo(idx: u32, v: &Opt) -> F { if v.0 == 0 { absent(idx) } else { fu(idx, v.0 as u64) } }
+fn ref_ca<const N: usize>(o: &mut Out<N>, v: &CA, h: &Hints, fr: Fr) {
+    o.structure(false, NOTAG, &[cls(h[0], fo(0, &v.o0)), cls(h[1], fo(1, &v.o1)), cls(h[2], fo(2, &v.o2)), cls(h[3], fo(3, &v.o3))], fr)
+}
+fn ref_cm<const N: usize>(o: &mut Out<N>, v: &CM, h: &Hints, fr: Fr) {
+    o.structure(true, NOTAG, &[cls(h[0], fo(0, &v.o0)), cls(h[1], fo(1, &v.o1)), cls(h[2], fo(2, &v.o2)), cls(h[3], fo(3, &v.o3))], fr)
+}
+// @harness name=enc2_codec_arr props=C08,C07 kind=complete note="custom codecs with is_nil in four attribute orders, array encoding"
+enc_harness!(enc2_codec_arr, CA, 16, ref_ca, |v| true, true, v.o1.0 == 0 && v.o3.0 != 0);
+// @harness name=enc2_codec_map props=C08,C07 kind=complete note="custom codecs with is_nil in four attribute orders, map encoding"
+enc_harness!(enc2_codec_map, CM, 16, ref_cm, |v| true, true, v.o1.0 == 0 && v.o3.0 != 0);
+// @harness name=dec2_codec_arr_full props=C09 kind=complete tier=thorough
+dec_harness!(dec2_codec_arr_full, skip0, CA => CA, 24, ref_ca, PREF, [1, 1, 1, 1, AUTO, AUTO, AUTO, AUTO], |h| CA { o0: Opt(u8c(1)), o1: Opt(u8c(1)), o2: Opt(u8c(1)), o3: Opt(u8c(1)) }, |v| v);
+// @harness name=dec2_codec_arr_trim props=C09 kind=complete tier=thorough note="o2, o3 absent (trimmed): nil() supplies them"
+dec_harness!(dec2_codec_arr_trim, skip0, CA => CA, 24, ref_ca, PREF, [1, 1, AUTO, AUTO, AUTO, AUTO, AUTO, AUTO], |h| CA { o0: Opt(u8c(1)), o1: Opt(u8c(1)), o2: Opt(0), o3: Opt(0) }, |v| v);
+// @harness name=dec2_codec_map_omit props=C09 kind=complete tier=thorough note="o2, o3 absent (omitted): nil() supplies them"
+dec_harness!(dec2_codec_map_omit, skip0, CM => CM, 24, ref_cm, PREF, [1, 1, AUTO, AUTO, AUTO, AUTO, AUTO, AUTO], |h| CM { o0: Opt(u8c(1)), o1: Opt(u8c(1)), o2: Opt(0), o3: Opt(0) }, |v| v);
+
+// ---- 5. borrowing: after decoding, `&str` / `&ByteSlice` / `Cow::Borrowed` fields point INTO the input buffer (payload <= 3 bytes)
+#[derive(Encode, Decode)]
+pub struct BS<'a> { #[b(0)] s: &'a str, #[n(1)] z: bool }
+#[derive(Encode, Decode)]
+pub struct BB<'a> { #[n(0)] z: bool, #[b(1)] s: &'a minicbor::bytes::ByteSlice }
+
+#[cfg(kani)] fn ascii() -> u8 { let x: u8 = kani::any(); kani::assume(x < 0x80); x }
+
+// @harness name=bor_str3 props=C09 kind=bounded bound="text payload of 3 ASCII bytes"
+#[cfg(kani)]
+#[kani::proof]
+#[kani::stub(minicbor::decode::Decoder::skip, skip0)]
+#[kani::unwind(8)]
+fn bor_str3() {
+    let (c0, c1, c2, z) = (ascii(), ascii(), ascii(), kani::any::<bool>());
+    let inp: [u8; 6] = [0x82, 0x63, c0, c1, c2, bb(z)];
+    let mut d = Decoder::new(&inp[..]);
+    let r: Result<BS<'_>, minicbor::decode::Error> = Decode::decode(&mut d, &mut ());
+    match r {
+        Ok(w) => {
+            chk!(w.z == z && w.s.len() == 3, "decoded value");
+            let b = w.s.as_bytes();
+            chk!(b[0] == c0 && b[1] == c1 && b[2] == c2, "decoded text");
+            chk!(core::ptr::eq(w.s.as_ptr(), inp[2 ..].as_ptr()), "C09: the &str field points into the input buffer");
+            chk!(d.position() == 6, "exact consumption");
+        }
+        Err(_) => chk!(false, "decoding succeeds"),
+    }
+    kani::cover!(true);
+}
+// @harness name=bor_bytes3 props=C09 kind=bounded bound="byte payload of 3 bytes"
+#[cfg(kani)]
+#[kani::proof]
+#[kani::stub(minicbor::decode::Decoder::skip, skip0)]
+#[kani::unwind(8)]
+fn bor_bytes3() {
+    let (c0, c1, c2, z) = (kani::any::<u8>(), kani::any::<u8>(), kani::any::<u8>(), kani::any::<bool>());
+    let inp: [u8; 6] = [0x82, bb(z), 0x43, c0, c1, c2];
+    let mut d = Decoder::new(&inp[..]);
+    let r: Result<BB<'_>, minicbor::decode::Error> = Decode::decode(&mut d, &mut ());
+    match r {
+        Ok(w) => {
+            chk!(w.z == z && w.s.len() == 3, "decoded value");
+            chk!(w.s[0] == c0 && w.s[1] == c1 && w.s[2] == c2, "decoded bytes");
+            chk!(core::ptr::eq(w.s.as_ptr(), inp[3 ..].as_ptr()), "C09: the &ByteSlice field points into the input buffer");
+            chk!(d.position() == 6, "exact consumption");
+        }
+        Err(_) => chk!(false, "decoding succeeds"),
+    }
+    kani::cover!(true);
+}
+// @harness name=bor_bytes0 props=C09 kind=bounded bound="empty byte payload"
+#[cfg(kani)]
+#[kani::proof]
+#[kani::stub(minicbor::decode::Decoder::skip, skip0)]
+#[kani::unwind(8)]
+fn bor_bytes0() {
+    let z: bool = kani::any();
+    let inp: [u8; 4] = [0x82, bb(z), 0x40, 0x00];
+    let mut d = Decoder::new(&inp[..]);
+    let r: Result<BB<'_>, minicbor::decode::Error> = Decode::decode(&mut d, &mut ());
+    match r {
+        Ok(w) => {
+            chk!(w.z == z && w.s.len() == 0, "decoded value");
+            chk!(core::ptr::eq(w.s.as_ptr(), inp[3 ..].as_ptr()), "C09: the empty slice still points into the input buffer");
+            chk!(d.position() == 3, "exact consumption");
+        }
+        Err(_) => chk!(false, "decoding succeeds"),
+    }
+    kani::cover!(true);
+}
+
+#[cfg(feature = "alloc")]
+extern crate alloc;
+#[cfg(feature = "alloc")]
+#[derive(Encode, Decode)]
+#[cbor(transparent)]
+pub struct CW<'a>(#[b(0)] alloc::borrow::Cow<'a, minicbor::bytes::ByteSlice>);
+/// `alloc` builds: `decode::Error::with_message` formats into a String, irrelevant to every contract here (spec/kani_stubs.rs)
+#[cfg(all(kani, feature = "alloc"))]
+pub fn with_message_stub<T: core::fmt::Display>(e: minicbor::decode::Error, _m: T) -> minicbor::decode::Error { e }
+
+// @harness name=bor_cow_transparent3 props=C09 kind=bounded features=alloc bound="byte payload of 3 bytes"
+#[cfg(all(kani, feature = "alloc"))]
+#[kani::proof]
+#[kani::stub(minicbor::decode::Decoder::skip, skip0)]
+#[kani::stub(minicbor::decode::Error::with_message, with_message_stub)]
+#[kani::unwind(8)]
+fn bor_cow_transparent3() {
+    let (c0, c1, c2) = (kani::any::<u8>(), kani::any::<u8>(), kani::any::<u8>());
+    let inp: [u8; 4] = [0x43, c0, c1, c2];
+    let mut d = Decoder::new(&inp[..]);
+    let r: Result<CW<'_>, minicbor::decode::Error> = Decode::decode(&mut d, &mut ());
+    match r {
+        Ok(w) => {
+            chk!(matches!(w.0, alloc::borrow::Cow::Borrowed(_)), "C09: #[b] Cow field is Cow::Borrowed");
+            chk!(w.0.len() == 3 && w.0[0] == c0 && w.0[2] == c2, "decoded bytes");
+            chk!(core::ptr::eq(w.0.as_ptr(), inp[1 ..].as_ptr()), "C09: the Cow points into the input buffer");
+            chk!(d.position() == 4, "exact consumption");
+        }
+        Err(_) => chk!(false, "decoding succeeds"),
+    }
+    kani::cover!(true);
+}
